@@ -18,7 +18,7 @@ func init() {
 		ID: "C06",
 		Decides: "layout: every access to state guarded by the layout mutex and every index read/write helper runs with the mutex held, no helper that runs under the caller's lock releases it, nothing that takes the lock is called with it held, and every index read-modify-write function holds it from the read to the write; " +
 			"no slice of the tag/referrer tables is shrunk while being ranged over forwards; registry tag-delete fallback deletes the digest of the placeholder it pushed (never the live manifest) and the placeholder is unique (time stamp + tag); " +
-			"the tag listing loop exits only on the limit, on an error, or when no next link was returned, and appends every page.",
+			"the tag listing loop exits only on the limit, on an error, or when no next link was returned, and appends every page; every cache access of the registry scheme uses the digest-normalised key.",
 		NotCovered: "agreement with a reference map over all histories; indexSet pruning semantics; foreign ref.name forms (suffix match in indexGet vs exact match in tagDelete/indexSet); registry-side semantics.",
 		Run:        runC06,
 	})
@@ -29,6 +29,8 @@ func runC06(p *core.Prog, r *core.Report) {
 	c06R2(p, r)
 	c06R3(p, r)
 	c06R4(p, r)
+	r.Rule("C06.R5", "every access to the registry scheme's manifest/referrer caches keys by the SetDigest-normalised reference, so a delete evicts exactly what a put or get stored", 8)
+	cacheKeyRule(p, r, "C06.R5", regCacheCalls(p))
 }
 
 // lockProblemsToReport turns the problems of a lock analysis into violations of rule.
